@@ -121,6 +121,10 @@ def make_judge(name, line, tre, tim, var, fmt, dom, delta):
     f = ORACLE[name]
     L = LD(fmt.largest)
     abs_slack = LD(float(fmt.tiny)) * (2 * LIBM_SLACK + 8)
+    # error-free transformations inside the DAG (compensated log kernels) are enclosed by their contracts
+    from sa.eft_terms import summaries as _eft_summaries
+
+    summ = _eft_summaries([tre, tim]) or None
 
     def cplx(t, side, tsign=None):
         tf = t
@@ -148,8 +152,8 @@ def make_judge(name, line, tre, tim, var, fmt, dom, delta):
         if spec[0] == "axis":
             env["x" if var == "y" else "y"] = dom.const(spec[2])
         memo = {}
-        R = evaluate(tre, env, dom, memo)
-        Im = evaluate(tim, env, dom, memo) if tim is not None else None
+        R = evaluate(tre, env, dom, memo, summ)
+        Im = evaluate(tim, env, dom, memo, summ) if tim is not None else None
         shp = lo.shape
         # reference values: both sides of a zero component (branch cuts), and both signs of the variable when it is zero
         if spec[0] == "axis" and spec[2] == 0:
@@ -271,7 +275,10 @@ def make_err_judge(name, line, tre, tim, var, fmt, region, counters):
                 tot = np.where(np.isnan(tot), 1e30, tot)
                 fin = np.isfinite(rlo) & np.isfinite(rhi)
             tots.append(tot)
-            ok &= (tot <= ERR_BOUND_U * edom.u) | ~fin | np.broadcast_to(R.emp, shp)
+            # an enclosure that is infinite at one end only is a coarse abstraction (or a box straddling the overflow
+            # threshold), not a proof: such boxes are refined; a box on which the result is the same infinity throughout is exempt
+            allinf = np.isinf(rlo) & np.isinf(rhi) & (rlo == rhi)
+            ok &= ((tot <= ERR_BOUND_U * edom.u) & fin) | allinf | np.broadcast_to(R.emp, shp)
         proved = ok | in_region
         refuted = np.zeros(shp, bool)
         errs = np.zeros(shp)
@@ -367,7 +374,20 @@ def _analyse(root, ctype, name, line, tier):
         res["stats"] = dict(boxes=out.evaluated, proved=out.proved, points=out.proved_points, levels=out.levels)
         # R1.2 forward error analysis (the named regions are reported by R1.1 and skipped here)
         counters = dict(points_checked=0)
-        ej = make_err_judge(name, line, tre, tim, var, fmt, known_region, counters)
+        # the first-order error model is relative: it does not apply where a component of the input is subnormal (on a ray
+        # y = c*x that is |x| < smallest_normal / min(1, |c|)); those inputs are judged by R1.1 and R1.5
+        spec_ = LINES[line]
+        cmin = min(1.0, abs(spec_[1])) if spec_[0] == "ray" else 1.0
+        thr = float(fmt.smallest) / cmin
+        thr_o = int(fmt.to_ord(fmt.ft(thr))) if thr < float(fmt.largest) else int(fmt.ord_inf)
+
+        def err_region(lo_, hi_):
+            rg = known_region(lo_, hi_)
+            if rg is None and -thr_o - 1 <= lo_[0] and hi_[0] <= thr_o:
+                return "a subnormal input component"
+            return rg
+
+        ej = make_err_judge(name, line, tre, tim, var, fmt, err_region, counters)
         try:
             eout = refine(lo0, hi0, ej, max_boxes=4_000_000, probe_limit=1_000_000, probe_dims=1)
         except Budget as e:
@@ -429,7 +449,8 @@ def _analyse_plane(root, ctype, name, tier):
                     tot = np.where(np.isnan(tot), 1e30, tot)
                     fin = np.isfinite(rlo) & np.isfinite(rhi)
                 tots.append(tot)
-                ok &= ((tot <= PLANE_BOUND_U * edom.u) & ~rn) | (~fin & ~rn)
+                allinf = np.isinf(rlo) & np.isinf(rhi) & (rlo == rhi)
+                ok &= ((tot <= PLANE_BOUND_U * edom.u) & fin & ~rn) | (allinf & ~rn)
             with np.errstate(all="ignore"):
                 ax0, ax1 = np.minimum(np.abs(xl), np.abs(xh)).astype(LD), np.maximum(np.abs(xl), np.abs(xh)).astype(LD)
                 ay0, ay1 = np.minimum(np.abs(yl), np.abs(yh)).astype(LD), np.maximum(np.abs(yl), np.abs(yh)).astype(LD)
@@ -441,6 +462,9 @@ def _analyse_plane(root, ctype, name, tier):
                     excl = (ax0 + ay0) >= L / 2
                 else:
                     excl = np.zeros(shp, bool)
+                # where a component is within a factor 4 of the largest float the result or an intermediate may overflow along a
+                # curve that boxes cannot isolate: that band is judged on the lines (R1.1) and by the probes (R1.5)
+                excl = excl | (np.maximum(ax1, ay1) >= L / 4)
             point = (l == h).all(axis=1)
             proved = ok | excl
             refuted = np.zeros(shp, bool)
